@@ -12,7 +12,7 @@
 (*               are open and released from the start.  Deviation switch: PartFix (FALSE = as built: a         *)
 (*               consumer that does not select the collection reports a partition event as consumed, so the    *)
 (*               task that selects it may never see it).                                                       *)
-(* Contract    : invariants over what the channel manager was asked to do (ghost sets started, eff, added,     *)
+(* Contract    : invariants over what the channel manager was asked to do (ghost sets started, bad, added,     *)
 (*               droppedC) - EventuallyStarted at quiescence, NewestWins, OlderMarkedDropped,                  *)
 (*               CreatingToDroppedIgnored (OnlyCreated), OnlySelected.                                         *)
 (* A "slot" is one (database, collection name); incarnation i of slot c has the identity <<c, i>>, creation    *)
@@ -33,15 +33,15 @@ VARIABLES coll, part,           \* catalog: state of every incarnation / of its 
           pc,                   \* progress of the last task's StartRead: 0 init, 1 coll watch open, 2 both open, 3 listed, 4 partitions listed, 5 watching
           cbuf, pbuf, cpos, ppos, \* watch streams since they were opened, and how far they have been handled
           older,                \* ids the last task's listing found to be older incarnations (repeatedCollectionID)
-          started, eff, added, droppedC, \* ghost: what the channel manager was told
+          started, bad, added, droppedC, \* ghost: what the channel manager was told; bad = started while known as an older incarnation and not yet recorded as dropped
           ever, everP,          \* ghost: ids that have been in state created at some time
           allOlder, newestL,    \* ghost: older / newest ids over all listings so far
           cat0,                 \* the initial catalog (never changes; part of the plan)
           nw, hist
 
 Ids == Slots \X (1..MaxInc)
-vars == <<cat0, coll, part, pc, cbuf, pbuf, cpos, ppos, older, started, eff, added, droppedC, ever, everP, allOlder, newestL, nw, hist>>
-view == <<cat0, coll, part, pc, cbuf, pbuf, cpos, ppos, older, started, eff, added, droppedC, ever, everP, allOlder, newestL, nw>>
+vars == <<cat0, coll, part, pc, cbuf, pbuf, cpos, ppos, older, started, bad, added, droppedC, ever, everP, allOlder, newestL, nw, hist>>
+view == <<cat0, coll, part, pc, cbuf, pbuf, cpos, ppos, older, started, bad, added, droppedC, ever, everP, allOlder, newestL, nw>>
 
 \* cfg helpers
 SelOne == [t \in {"t1"} |-> Slots]
@@ -84,9 +84,9 @@ Init ==
     \* tasks in Early have run StartRead on this catalog
     /\ LET L == {id \in Ids : coll[id] \in CListed}
            es == UNION {Sel[t] : t \in Early}
-       IN IF Early = {} THEN /\ started = {} /\ eff = {} /\ added = {} /\ droppedC = {} /\ allOlder = {} /\ newestL = {}
+       IN IF Early = {} THEN /\ started = {} /\ bad = {} /\ added = {} /\ droppedC = {} /\ allOlder = {} /\ newestL = {}
           ELSE /\ droppedC = OlderOf(L) /\ allOlder = OlderOf(L)
-               /\ started = {id \in NewestSet(L) : id[1] \in es} /\ eff = {id \in NewestSet(L) : id[1] \in es}
+               /\ started = {id \in NewestSet(L) : id[1] \in es} /\ bad = {}
                /\ newestL = {id \in NewestSet(L) : id[1] \in es}
                /\ added = {id \in Ids : part[id] \in PListed /\ coll[id] \notin {"none", "tombstone"} /\ id \notin OlderOf(L) /\ id[1] \in es}
     /\ nw = 0 /\ hist = <<>>
@@ -131,15 +131,15 @@ PDrop(id) == /\ part[id] = "created" /\ coll[id] \in {"created", "dropping", "dr
 
 Write == /\ nw < MaxW
          /\ \E id \in Ids : New(id) \/ Ok(id) \/ Fail(id) \/ Drop(id) \/ Dropped(id) \/ Gc(id) \/ PNew(id) \/ PDrop(id)
-         /\ UNCHANGED <<pc, cpos, ppos, older, started, eff, added, droppedC, allOlder, newestL>>
+         /\ UNCHANGED <<pc, cpos, ppos, older, started, bad, added, droppedC, allOlder, newestL>>
 
 (* ---------------------------------------------------------------- the last task's StartRead *)
 RStep(name) == hist' = Append(hist, [op |-> "r", kind |-> name, c |-> "", i |-> 0])
 
 OpenC == /\ pc = 0 /\ pc' = 1 /\ RStep("openc")
-         /\ UNCHANGED <<coll, part, cbuf, pbuf, cpos, ppos, older, started, eff, added, droppedC, ever, everP, allOlder, newestL, nw>>
+         /\ UNCHANGED <<coll, part, cbuf, pbuf, cpos, ppos, older, started, bad, added, droppedC, ever, everP, allOlder, newestL, nw>>
 OpenP == /\ pc = 1 /\ pc' = 2 /\ RStep("openp")
-         /\ UNCHANGED <<coll, part, cbuf, pbuf, cpos, ppos, older, started, eff, added, droppedC, ever, everP, allOlder, newestL, nw>>
+         /\ UNCHANGED <<coll, part, cbuf, pbuf, cpos, ppos, older, started, bad, added, droppedC, ever, everP, allOlder, newestL, nw>>
 \* GetAllCollection, newest per (database, name), AddDroppedCollection(older), StartReadCollection for the others
 List == /\ pc = 2 /\ pc' = 3 /\ RStep("list")
         /\ LET L == ListedNow
@@ -150,14 +150,14 @@ List == /\ pc = 2 /\ pc' = 3 /\ RStep("list")
               /\ newestL' = newestL \cup go
               /\ droppedC' = droppedC \cup old
               /\ started' = started \cup go
-              /\ eff' = eff \cup (go \ (droppedC \cup old))
+              /\ bad' = bad \cup (go \cap ((allOlder \cup old) \ (droppedC \cup old)))
         /\ UNCHANGED <<coll, part, cbuf, pbuf, cpos, ppos, added, ever, everP, nw>>
 \* GetAllPartition with the filter that calls AddPartition
 PList == /\ pc = 3 /\ pc' = 4 /\ RStep("plist")
          /\ added' = added \cup PAddable(older, Sel[LastT])
-         /\ UNCHANGED <<coll, part, cbuf, pbuf, cpos, ppos, older, started, eff, droppedC, ever, everP, allOlder, newestL, nw>>
+         /\ UNCHANGED <<coll, part, cbuf, pbuf, cpos, ppos, older, started, bad, droppedC, ever, everP, allOlder, newestL, nw>>
 StartW == /\ pc = 4 /\ pc' = 5 /\ RStep("startw")
-          /\ UNCHANGED <<coll, part, cbuf, pbuf, cpos, ppos, older, started, eff, added, droppedC, ever, everP, allOlder, newestL, nw>>
+          /\ UNCHANGED <<coll, part, cbuf, pbuf, cpos, ppos, older, started, bad, added, droppedC, ever, everP, allOlder, newestL, nw>>
 
 (* ---------------------------------------------------------------- the watch goroutines *)
 \* every subscribed task's consumer; the collection consumer of a task that does not select returns false (next one is asked)
@@ -166,12 +166,12 @@ DrainC ==
     /\ cpos' = cpos + 1
     /\ LET e == cbuf[cpos + 1] IN
          IF e.st = "tombstone" /\ e.prev = "creating"
-           THEN /\ droppedC' = droppedC \cup {e.id} /\ UNCHANGED <<started, eff>>       \* SkipCollectionState
+           THEN /\ droppedC' = droppedC \cup {e.id} /\ UNCHANGED <<started, bad>>       \* SkipCollectionState
            ELSE IF e.st = "created" /\ coll[e.id] # "tombstone" /\ e.id[1] \in Selected  \* fields still readable
                   THEN /\ started' = started \cup {e.id}
-                       /\ eff' = IF e.id \in droppedC THEN eff ELSE eff \cup {e.id}
+                       /\ bad' = IF e.id \in allOlder \ droppedC THEN bad \cup {e.id} ELSE bad
                        /\ UNCHANGED droppedC
-                  ELSE UNCHANGED <<started, eff, droppedC>>
+                  ELSE UNCHANGED <<started, bad, droppedC>>
     /\ UNCHANGED <<coll, part, pc, cbuf, pbuf, ppos, older, added, ever, everP, allOlder, newestL, nw, hist>>
 
 DrainP ==
@@ -183,7 +183,7 @@ DrainP ==
            mayBeEaten == ~PartFix /\ \E t \in Tasks : e.id[1] \notin Sel[t]
        IN \/ /\ deliverable /\ added' = added \cup {e.id}
           \/ /\ (~deliverable \/ mayBeEaten) /\ UNCHANGED added
-    /\ UNCHANGED <<coll, part, pc, cbuf, pbuf, cpos, older, started, eff, droppedC, ever, everP, allOlder, newestL, nw, hist>>
+    /\ UNCHANGED <<coll, part, pc, cbuf, pbuf, cpos, older, started, bad, droppedC, ever, everP, allOlder, newestL, nw, hist>>
 
 Next == (Write \/ OpenC \/ OpenP \/ List \/ PList \/ StartW \/ DrainC \/ DrainP) /\ cat0' = cat0
 Spec == Init /\ [][Next]_vars
@@ -194,7 +194,7 @@ OnlyCreated == started \subseteq ever /\ added \subseteq everP
 \* only collections some task selects
 OnlySelectedP(S) == \A id \in started \cup added : id[1] \in S
 \* several incarnations share a name: the older ones are never started with effect (they are recorded as dropped first) ...
-NoOlderStart == allOlder \cap eff = {}
+NoOlderStart == bad = {}
 \* ... and once the listing has been acted upon they are recorded as dropped and the newest one is started
 ListingHonoured == allOlder \subseteq droppedC /\ newestL \subseteq started
 \* at quiescence (watching, every delivered event handled) everything that exists and is selected has been started
